@@ -1164,6 +1164,7 @@ def check_copy_ctors_complete(rule, db, cfgname, classes, exempt=()):
             if not any(i.get("written") for i in inits) and not [1 for _, n in c.walk(c.body) if n["k"] not in ("block", "null")]:
                 continue
             covered, const_only = set(), set()
+            partial_loops = []
             for i in inits:
                 if i.get("field") and i.get("e") is not None and i.get("written"):
                     (covered if ms(cctx.key(i["e"])) else const_only).add(i["field"])
@@ -1184,6 +1185,13 @@ def check_copy_ctors_complete(rule, db, cfgname, classes, exempt=()):
                         for fld_ in ("init", "c", "range"):
                             if ln.get(fld_) is not None and any(ms(cctx.key(x)) for x, nn in c.walk(ln[fld_]) if nn["k"] in ("call", "member", "ref", "construct")):
                                 dep = True
+                        if dep and ln.get("c") is not None:
+                            # a deep-copy loop must run over the whole container of the source: a loop that continues only WHILE its
+                            # iterator EQUALS end() copies nothing
+                            for fc_ in cctx.cmp_fact(ln["c"], True):
+                                if fc_[0] == "==" and any(isinstance(y, tuple) and y[0] == "mcall" and y[1].split("::")[-1] in ("end", "cend") for y in fc_[1:]):
+                                    dep = False
+                                    partial_loops.append((fname, c.loc(L_)))
                 (covered if dep else const_only).add(fname)
             site = "%s:copy-takes-every-member" % c.qn
             miss = []
@@ -1191,7 +1199,8 @@ def check_copy_ctors_complete(rule, db, cfgname, classes, exempt=()):
                 if f_.get("static") or f_["n"] in exempt or "&" in (f_.get("t") or ""):
                     continue
                 if f_["n"] not in covered:
-                    miss.append(f_["n"] + (" (set to a constant)" if f_["n"] in const_only else " (not initialised from the source)"))
+                    miss.append(f_["n"] + (" (the copying loop runs only while its iterator equals end(): nothing is copied)" if any(pl[0] == f_["n"] for pl in partial_loops) else
+                                           " (set to a constant)" if f_["n"] in const_only else " (not initialised from the source)"))
             if miss:
                 rule.bad(site, c.loc(), "the copy constructor does not take over: %s -- a copy behaves differently from its source" % ", ".join(miss), cfgname)
             else:
